@@ -15,7 +15,7 @@ PRELUDE = "From Coq Require Import List ZArith.\nFrom AV Require Import Agg.AggM
 
 # percentile parameters: dyadic rationals (exact in f64, so the model's rational index equals the f64 one)
 PS = [(0, 1), (1, 1), (25, 1), (33, 1), (50, 1), (75, 1), (99, 1), (100, 1), (25, 2), (199, 2), (1, 4), (399, 4)]
-KINDS = ["exact", "filter", "chain", "flat"]
+KINDS = ["exact", "filter", "chain", "flat", "mixed", "mixedrev"]   # mixed*: inexact size hint with a positive lower bound
 
 
 def gen_cases(tier, seed):
